@@ -409,6 +409,11 @@ func TestC19(t *testing.T) {
 		rec.Bulk(int64(n), int64(n), map[string]int64{"artefact:comparisons": int64(n)})
 		rec.Sample(map[string]any{"artefact_comparisons": n, "what": "ATN x4 per grammar, .interp x6, .tokens x6, name tables, .g4 vocabularies, 27 rule skeletons x3, listener methods"})
 		if msg != "" {
+			if strings.Contains(msg, "cannot extract") || strings.Contains(msg, "cannot read") || strings.Contains(msg, "cannot decode") || strings.Contains(msg, "extractor out of date") || strings.Contains(msg, "cannot parse") {
+				// my extractors do not understand the artefacts (e.g. a new ANTLR version regenerated everywhere): not a verdict
+				ev.HarnessError("C19", "%s", msg)
+				t.Fatalf("harness: %s", msg)
+			}
 			rec.Violation(c19Input{Artefact: msg}, msg)
 			t.Fatalf("%s", msg)
 		}
